@@ -285,7 +285,7 @@ func (its *document) PutToObject(key string, value interface{}) (Document, error
 	if types.HasNilValue(value) {
 		return nil, errors.DatatypeIllegalParameters.New(its.L(), "null value is not allowed")
 	}
-	op := operations.NewDocPutInObjOperation(its.snapshot().getCreateTime(), key, value)
+	op := operations.NewDocPutInObjOperation(its.snapshot().getCreateTime(), key, types.ConvertToJSONSupportedValue(value))
 	removed, err := its.SentenceInTx(its.TxCtx, op, true)
 	if err != nil {
 		return nil, err
@@ -360,7 +360,11 @@ func (its *document) InsertToArray(pos int, values ...interface{}) (Document, er
 			return its, errors.DatatypeIllegalParameters.New(its.L(), "null value is not allowed")
 		}
 	}
-	op := operations.NewDocInsertToArrayOperation(its.snapshot().getCreateTime(), pos, values)
+	jsonValues, cErr := types.ConvertValueList(values)
+	if cErr != nil {
+		return its, errors.DatatypeIllegalParameters.New(its.L(), cErr.Error())
+	}
+	op := operations.NewDocInsertToArrayOperation(its.snapshot().getCreateTime(), pos, jsonValues)
 	if _, err := its.SentenceInTx(its.TxCtx, op, true); err != nil {
 		return its, err
 	}
@@ -410,7 +414,11 @@ func (its *document) UpdateManyInArray(pos int, values ...interface{}) ([]Docume
 			return nil, errors.DatatypeIllegalParameters.New(its.L(), "null value is not allowed")
 		}
 	}
-	op := operations.NewDocUpdateInArrayOperation(its.snapshot().getCreateTime(), pos, values)
+	jsonValues, cErr := types.ConvertValueList(values)
+	if cErr != nil {
+		return nil, errors.DatatypeIllegalParameters.New(its.L(), cErr.Error())
+	}
+	op := operations.NewDocUpdateInArrayOperation(its.snapshot().getCreateTime(), pos, jsonValues)
 	oldOnes, err := its.SentenceInTx(its.TxCtx, op, true)
 	if err != nil {
 		return nil, err
